@@ -70,6 +70,7 @@ namespace c14
         std::map<std::string, std::string> word;  // branch id -> predicted word ("LSL", ..., or "LSL0" for trivial)
         std::vector<std::string> nodes;           // decision nodes (boundary ids)
         std::map<std::string, int> rsCase;        // "row:signs" -> 1
+        std::map<std::string, int> excluded;      // branch cases argued unreachable (not searched for)
         void load(const std::string &path)
         {
             std::ifstream f(path);
@@ -88,6 +89,8 @@ namespace c14
                     nodes.push_back(j["id"]);
                 else if (k == "rcase")
                     rsCase[j["id"]] = 1;
+                else if (k == "excluded")
+                    excluded[j["id"]] = 1;
             }
         }
     };
@@ -129,10 +132,13 @@ namespace c14
         q.six = sixWords(c.d, c.alpha, c.beta);
         if (qout)
             *qout = q;
+        bool inFold = false;
         auto tok = [&](const std::string &name, bool outcome, LD margin)
         {
             br.trail.push_back(name + (outcome ? "=T" : "=F"));
             br.margin = std::min(br.margin, margin);
+            if (inFold)
+                br.outs.push_back(outcome);
         };
         // the double and the long-double view of the inputs must agree for the case to count as interior
         if (fabsl(wrapPi(c.alpha - (LD)c.aD)) > 1e-9L || fabsl(wrapPi(c.beta - (LD)c.bD)) > 1e-9L)
@@ -158,6 +164,9 @@ namespace c14
             char cls[8];
             snprintf(cls, sizeof cls, "a%d%d", rowOf(br.qa), rowOf(br.qb));
             br.trail.push_back(cls);
+            br.kind = "long";
+            br.cls = cls;
+            inFold = true;
             auto it = tb.tree.find(cls);
             if (it == tb.tree.end())
             {
@@ -184,9 +193,10 @@ namespace c14
                 }
                 else
                 {
-                    LD s = q.s(f, ok);
+                    LD seam = INF;
+                    LD s = q.s(f, ok, &seam);
                     out = rel == "<0" ? s < 0 : s > 0;
-                    m = fabsl(s);
+                    m = std::min(fabsl(s), seam);
                 }
                 if (!ok)
                     m = 0;
@@ -202,6 +212,8 @@ namespace c14
         {
             LD minLen = q.six.w[0].len();
             br.word = 0;
+            br.kind = "short";
+            inFold = true;
             static const char *nm[6] = {"lsl", "rsr", "rsl", "lsr", "rlr", "lrl"};
             // feasibility thresholds of the words that have one
             {
@@ -211,6 +223,9 @@ namespace c14
                 LD dRR = hypotl(r2x - r1x, r2y - r1y), dLL = hypotl(l2x - l1x, l2y - l1y);
                 br.margin = std::min({br.margin, fabsl(dRL - 2), fabsl(dLR - 2), fabsl(dRR - 4), fabsl(dLL - 4)});
             }
+            for (int i = 0; i < 6; ++i)  // every arc angle of a competing word away from the 0 / 2pi seam
+                if (q.six.w[i].ok)
+                    br.margin = std::min({br.margin, q.six.w[i].t, TWOPI - q.six.w[i].t, q.six.w[i].q, TWOPI - q.six.w[i].q});
             for (int i = 1; i < 6; ++i)
             {
                 LD len = q.six.w[i].len();
